@@ -163,10 +163,14 @@ type Alpha struct {
 	NoCatch  bool
 	NoDef    bool
 	WithPost bool // C12: post-transform configurations are part of the alphabet
+	Lite     bool // reduced configuration/input alphabets (used where another dimension is added)
 }
 
 // primitive configuration: index 0 is the plain node (optional, no default, no catch, tests {t2}).
 func (a *Alpha) primCfgN(k Kind) int {
+	if a.Lite {
+		return 5
+	}
 	n := 2 * 3 * 2 * 3
 	if a.NoCatch {
 		n /= 2
@@ -176,6 +180,20 @@ func (a *Alpha) primCfgN(k Kind) int {
 
 func (a *Alpha) primCfg(n *Node, idx int) {
 	t1, t2 := kindTests(n.Kind)
+	if a.Lite {
+		n.Tests = []TestSpec{t2}
+		switch idx {
+		case 1:
+			n.Req = true
+		case 2:
+			n.Catch = true
+		case 3:
+			n.DefClass = 1
+		case 4:
+			n.Tests = []TestSpec{t1, t2}
+		}
+		return
+	}
 	ti := idx % 3
 	idx /= 3
 	n.Req = idx%2 == 1
@@ -204,6 +222,13 @@ type inClass struct {
 // Parse inputs of a primitive; index 0 is the valid native value.
 func (a *Alpha) primParseInputs(k Kind) []inClass {
 	valid := primValue(k, VValid)
+	if a.Lite {
+		out := []inClass{{"valid", valid, false}, {"missing", nil, true}, {"fail1", primValue(k, VFail1), false}}
+		if k != KStr {
+			out = append(out, inClass{"uncoercible", "abc", false})
+		}
+		return out
+	}
 	out := []inClass{{"valid", valid, false}, {"missing", nil, true}, {"nil", nil, false}, {"empty", "", false}}
 	if a.Tier == "thorough" {
 		out = append(out, inClass{"spaces", "  ", false}, inClass{"tabnl", "\t\n", false}, inClass{"nbsp", " ", false})
@@ -234,6 +259,9 @@ var tZero = reflect.Zero(primType(KTime)).Interface()
 
 // Validate inputs of a primitive (values already in the destination).
 func (a *Alpha) primValidateInputs(k Kind) []inClass {
+	if a.Lite {
+		return []inClass{{"valid", primValue(k, VValid), false}, {"zero", reflect.Zero(primType(k)).Interface(), false}, {"fail1", primValue(k, VFail1), false}}
+	}
 	out := []inClass{{"valid", primValue(k, VValid), false}, {"zero", reflect.Zero(primType(k)).Interface(), false}, {"fail1", primValue(k, VFail1), false}}
 	if k != KBool {
 		out = append(out, inClass{"fail2", primValue(k, VFail2), false}, inClass{"failB", primValue(k, VFailB), false})
